@@ -1215,6 +1215,7 @@ class PX:
         # process copies first (push to work), the in-place one last
         for s2, o in states:
             f2 = s2.frames[-1]
+            ncons_before = len(s2.cons.log)
             if "assume" in o and not o["assume"](s2.cons):
                 continue
             if self.zone_check and "assume" in o and not self.zone_check(s2.cons):
@@ -1223,6 +1224,7 @@ class PX:
                 s2.trace.append((f2.info.name, f2.bb, "model:%s" % o["label"]))
             e2 = dict(ev)
             e2["label"] = o.get("label")
+            e2["ncons_before"] = ncons_before
             if "do" in o:
                 o["do"](s2)
             if o.get("diverge"):
